@@ -66,6 +66,8 @@ class ConclusionSelector(LogicalOperator, ABC):
         super()._reset_only_my_cache_()
         # What was concluded belongs to one evaluation: a later evaluation has to conclude it again.
         self.concluded_before = {}
+        # ... and so does what is selected for the output at which the evaluation was abandoned.
+        self._clear_conclusion_()
 
     def _copy_expression_(self, postfix: str) -> SymbolicExpression:
         cp = super()._copy_expression_(postfix)
